@@ -1,8 +1,9 @@
 (* C09 — Session negotiation / protocol violations: specified status, no side effects.
-   Statements only; proofs in Server/Facts.v. *)
-From Coq Require Import List NArith Bool.
-From GV.Base Require Import Alist U128 Op.
-From GV.Server Require Import Model Facts.
+   Statements only; proofs in Server/Facts.v and Server/DecisionsFacts2.v. *)
+From Coq Require Import List NArith Bool String.
+From GV.Base Require Import Alist U128 Op GoLite.
+From GV.Server Require Import Model Facts DecisionsFacts DecisionsFacts2.
+From GV.Generated Require Import Decisions.
 Import ListNotations.
 Open Scope N_scope.
 
@@ -35,6 +36,88 @@ Example C09_table_rows (E R : Type) (s : srv R) c x p id ops :
 Proof.
   repeat split; cbn [violation]; intros; repeat match goal with H : _ = _ |- _ => rewrite H end; reflexivity.
 Qed.
+
+(* checkParams as it is in /repo/server/server.go on this run (regenerated): for every session
+   name, parameter message (any enum numbers), gotMsg flag, election state and client table [tbl]
+   holding the calling session's record, it never panics and decides as check_params (the table
+   above, written as a function); on acceptance it stores exactly cp_of p as the session's params
+   and answers OK; otherwise it changes nothing.  checkClientsConsistent / setClientParams have the
+   meaning of GoLite.mcall; [mal]/[mis] = what the scan of the other sessions finds. *)
+Theorem C09_regenerated_checkParams (id : string) (tbl : list (string * gval)) (x : sess) (p : pmsg) (gotmsg : bool)
+        (cu : option u128) (mst : string) (mal mis : bool) :
+  tbl_get id tbl = Some (enc_sess x) ->
+  tbl_scan id (cp_triple (cp_of p)) tbl = (mal, mis) -> mal && mis = false ->
+  run_method decisions_funs "s" (cp_env id (Some p) gotmsg (srv_val cu mst tbl)) checkParams_body
+  = match check_params gotmsg (Some p) (if mal then None else Some (negb mis)) with
+    | Some (c, r) => Some (srv_val cu mst tbl, [VNil; enc_err c r])
+    | None => Some (srv_val cu mst (tbl_set id (enc_sess (with_params x (cp_of p))) tbl), [enc_resp RParamsOK; VNil])
+    end.
+Proof. exact (gen_checkParams_agrees id tbl x p gotmsg cu mst mal mis). Qed.
+Print Assumptions C09_regenerated_checkParams.
+
+Theorem C09_regenerated_checkParams_nil (id : string) (gotmsg : bool) (sv : gval) :
+  run_method decisions_funs "s" (cp_env id None gotmsg sv) checkParams_body
+  = Some (sv, [VNil; enc_err Internal NoDetail]).
+Proof. exact (gen_checkParams_nil id gotmsg sv). Qed.
+Print Assumptions C09_regenerated_checkParams_nil.
+
+(* the model's do_params is that decision, followed by updateParams *)
+Theorem C09_do_params_is_checkParams (R : Type) (c : N) (x : sess) (p : pmsg) (s : srv R) :
+  do_params R sv_fixed c x p s =
+  match check_params (s_gotmsg x) (Some p) (Some (consistent R c (cp_of p) s)) with
+  | Some (cd, r) => (s, out_end cd r)
+  | None =>
+    if s_set x
+    then (upd_sess R c {| s_params := cp_of p; s_set := true; s_last := s_last x; s_gotmsg := s_gotmsg x |} s,
+          out_end FailedPrecondition MODIFY_NOT_ALLOWED)
+    else (upd_sess R c {| s_params := cp_of p; s_set := true; s_last := s_last x; s_gotmsg := true |} s,
+          out_resp RParamsOK)
+  end.
+Proof. exact (do_params_is_check_params R c x p s). Qed.
+Print Assumptions C09_do_params_is_checkParams.
+
+(* on the model's own session table the scan of checkClientsConsistent finds no nil record and
+   a difference exactly when the model's [consistent] is false *)
+Theorem C09_consistency_scan (name : N -> string) (c : N) (cp : cparams) (R : Type) (s : srv R) :
+  (forall a b, name a = name b -> a = b) ->
+  tbl_scan (name c) (cp_triple cp) (enc_table name (ss s)) = (false, negb (consistent R c cp s)).
+Proof. intros H. exact (tbl_scan_enc name H c cp (ss s)). Qed.
+Print Assumptions C09_consistency_scan.
+
+(* the dispatch switch of Modify's receive loop as it is in /repo on this run (regenerated; each
+   case summarised by the status it sends or the methods it calls): for every combination of
+   populated fields it picks the class of the model (more than one field: INVALID_ARGUMENT;
+   none: UNIMPLEMENTED; else params / election / operations in this order) *)
+Theorem C09_regenerated_dispatch (bp be bo : bool) :
+  exec (in_env bp be bo) Modify_dispatch_body = Ret [enc_class (msg_class bp be bo)].
+Proof. exact (gen_dispatch_agrees bp be bo). Qed.
+Print Assumptions C09_regenerated_dispatch.
+
+Theorem C09_dispatch_is_step (E R : Type) has_ni add del (s : srv R) c x (m : msg E) : sget R c s = Some x ->
+  let st := step E R has_ni add del sv_fixed s (Msg E c m) in
+  match class_of E m with
+  | CMulti => o_end (snd st) = Some (InvalidArgument, NoDetail) /\ o_resps (snd st) = []
+  | CNone => o_end (snd st) = Some (Unimplemented, NoDetail) /\ o_resps (snd st) = []
+  | CParams => forall p, m = MParams E p -> snd st = snd (do_params R sv_fixed c x p s)
+  | CElect => forall id, m = MElect E id -> snd st = snd (do_elect R sv_fixed c x id s)
+  | COps => forall ops, m = MOps E ops -> snd st = snd (do_modify E R has_ni add del sv_fixed c x ops s)
+  end.
+Proof. exact (step_dispatch E R has_ni add del s c x m). Qed.
+Print Assumptions C09_dispatch_is_step.
+
+(* deleteClient (regenerated) removes the session's entry and nothing else; on the model's table
+   that is drop_sess *)
+Theorem C09_regenerated_deleteClient (id : string) (cu : option u128) (mst : string) (tbl : list (string * gval)) :
+  run_method decisions_funs "s" (dc_env id (srv_val cu mst tbl)) deleteClient_body
+  = Some (srv_val cu mst (tbl_del id tbl), []).
+Proof. exact (gen_deleteClient_agrees id cu mst tbl). Qed.
+Print Assumptions C09_regenerated_deleteClient.
+
+Theorem C09_deleteClient_is_drop_sess (R : Type) (name : N -> string) (s : srv R) (c : N) :
+  (forall a b, name a = name b -> a = b) ->
+  tbl_del (name c) (enc_table name (ss s)) = enc_table name (ss (drop_sess R c s)).
+Proof. exact (deleteClient_is_drop_sess R name s c). Qed.
+Print Assumptions C09_deleteClient_is_drop_sess.
 
 (* an operation without an election id ends the RPC with FAILED_PRECONDITION *)
 Theorem C09_op_without_id (mst : option N) cu me last :
@@ -79,3 +162,15 @@ Example C09_example :
   /\ o_end (snd (st s2 (Msg unit 1 (MElect unit (0, 0))))) = Some (InvalidArgument, NoDetail)
   /\ o_end (snd (st s1 (Msg unit 1 (MParams unit {| p_red := 2; p_pers := 1; p_ack := 0 |})))) = Some (Unimplemented, UNSUPPORTED_PARAMS).
 Proof. vm_compute. repeat split. Qed.
+
+(* non-vacuity of C09_regenerated_checkParams: second session with the same / different parameters *)
+Example C09_checkParams_example :
+  let x0 := {| s_params := cp_default; s_set := false; s_last := None; s_gotmsg := false |} in
+  let x1 := {| s_params := {| cp_persist := true; cp_expect := true; cp_fib := false |}; s_set := true;
+               s_last := None; s_gotmsg := true |} in
+  let tbl := [("a", enc_sess x1); ("b", enc_sess x0)]%string in
+  run_method decisions_funs "s" (cp_env "b" (Some {| p_red := 1; p_pers := 1; p_ack := 0 |}) false (srv_val None "" tbl)) checkParams_body
+  = Some (srv_val None "" [("a", enc_sess x1); ("b", enc_sess (with_params x0 (s_params x1)))]%string, [enc_resp RParamsOK; VNil])
+  /\ run_method decisions_funs "s" (cp_env "b" (Some {| p_red := 1; p_pers := 1; p_ack := 1 |}) false (srv_val None "" tbl)) checkParams_body
+     = Some (srv_val None "" tbl, [VNil; enc_err FailedPrecondition PARAMS_DIFFER]).
+Proof. vm_compute. split; reflexivity. Qed.
